@@ -436,11 +436,7 @@ func OpExpect(o OpObs, flatOnly bool) string {
 		if flatOnly {
 			tag = "copied*"
 		}
-		e := o.Err
-		if e == "eof" {
-			e = "returned-eof"
-		}
-		return fmt.Sprintf("%s %s %s %s", tag, e, Sum(o.Bytes), Sums(o.Pieces))
+		return fmt.Sprintf("%s %s %s %s", tag, o.Err, Sum(o.Bytes), Sums(o.Pieces))
 	}
 }
 
